@@ -406,8 +406,10 @@ def run(ctx):
     # ---- concrete failing inputs: each candidate is re-run alone (a damaged heap can spoil later cases of a batch)
     reported = 0
     seen = set()
+    import time
+    t_rerun = time.time()
     for line, il, why in ofail:
-        if reported >= 3 or line in seen:
+        if reported >= 3 or line in seen or time.time() - t_rerun > 150:      # (re-running hanging candidates is slow)
             continue
         seen.add(line)
         out1, _ = run_single(harness, line)
@@ -425,12 +427,12 @@ def run(ctx):
                        "how": "./check C14 --replay <this file>"})
     areported = 0
     for line, il, al in afail:
-        if areported >= 2 or line in seen:
+        if areported >= 2 or line in seen or time.time() - t_rerun > 240:
             continue
         out1, err1 = run_single(asan, line)
         outp, _ = run_single(harness, line)
-        if not out1.startswith("DIED") and out1 == outp:
-            continue
+        if out1 == outp and (not out1.startswith("DIED") or out1.startswith("DIED timeout")):
+            continue        # (a call that returns in neither build is reported above, as a violation of the main clause)
         seen.add(line)
         areported += 1
         summ = asan_summary(err1)
@@ -479,7 +481,7 @@ def run(ctx):
                 "(solve / assign / balanceDemand / solve+assign; fixed patterns such as refused solve, balanceDemand, solve, assign and random "
                 "ones) on ONE object, about half with supply > demand at first so that the first call is refused, zero demands 0-60%%: every "
                 "call's result is compared with the model on the object's data before the call, with fresh objects on the same data, and "
-                "with the statement; a call that does not return within 6 s CPU is a violation; exhaustively 1..2 sources, 1..3 sinks, "
+                "with the statement; a call (TS and TO cases) that does not return within 6 s is a violation; exhaustively 1..2 sources, 1..3 sinks, "
                 "positions 0..1, supplies/demands 0..2 under 3 call patterns (quick: without 2x3). "
                 "non-trivial = the plan has >= 2 entries and positive cost; distinct = distinct case lines" % (smalls, nhist),
         "exhaustive": True, "exhaustive_cases": nsmall, "random_cases": total - nsmall - len(corp) - nhist, "state_between_calls_case_lines": nhist,
